@@ -57,6 +57,8 @@ def check(script, closes, what, fee=0.001, expect_events=None):
         events, m, out = run(script, closes, fee)
     except Exception as ex:
         return f'{what}: raised {type(ex).__name__}: {ex}'
+    if expect_events is not None and [e[0] for e in events] != expect_events:
+        return f'{what}: hooks {[e[0] for e in events]}, expected {expect_events}'
     if not m or m.get('total', 0) == 0:
         return None
     wallet = m['finishing_balance'] - m['starting_balance']
@@ -156,9 +158,43 @@ def scenario_fill_times():
     return None
 
 
+def scenario_two_sessions():
+    """two sessions in one process with different fee rates: the trade log of the second must use its own fee"""
+    script = {1: lambda s: s.broker.buy_at_market(2), 6: lambda s: s.broker.sell_at_market(2)}
+    closes = [100, 100, 101, 103, 104, 106, 107, 107, 108, 108]
+    for fees in ((0.0, 0.001), (0.002, 0.0)):
+        d = None
+        for fee in fees:
+            d = check(script, closes, f'session with fee {fee} after sessions with fees {fees[:fees.index(fee)]}', fee=fee)
+        if d:
+            return d
+    return None
+
+
+def scenario_terminate(fast):
+    """a position still open at the end of the session: the strategy's closing order is executed, the cycle ends with its close"""
+    from jesse import research
+    script = {1: lambda s: s.broker.buy_at_market(2)}
+    closes = [100 + (j % 7) for j in range(40)]
+    import jesse.research as R
+    orig = R.backtest
+    try:
+        if fast:
+            R.backtest = lambda *a, **k: orig(*a, **dict(k, fast_mode=True))
+        return check(script, closes, f'position open at the end of a {"fast" if fast else "normal"} session', fee=0.001, expect_events=['open', 'close'])
+    finally:
+        R.backtest = orig
+
+
 def replay(pl):
     if pl['obligation'].startswith('float'):
         return bounded(pl)
+    if pl['obligation'].startswith('module-state'):
+        d = scenario_two_sessions()
+        return {'confirmed': bool(d), 'detail': d or 'two sessions with different fees: each trade log uses its own fee'}
+    if pl['obligation'].startswith('sampling'):
+        d = scenario_terminate(False) or scenario_terminate(True)
+        return {'confirmed': bool(d), 'detail': d or 'a position open at the end is closed and logged in both simulators'}
     if pl['obligation'].startswith('chunk-clock'):
         try:
             d = scenario_fill_times()
